@@ -55,7 +55,9 @@ def scanSomePure (pre : Line) : Line → Line → Option (Line × Line × Line)
 def scanNonePure : Line → Line → Option (Line × Line × Line)
   | _, [] => none
   | pre, ch :: rest =>
-    if ch ≠ '`' then (if pre.length < 3 then none else scanSomePure pre [ch] rest)
+    if ch ≠ '`' then
+      (if pre.length < 3 then none
+       else if ((ch :: rest).takeWhile (· ≠ '{')).contains '`' then none else scanSomePure pre [ch] rest)
     else scanNonePure (pre ++ [ch]) rest
 
 def fencePure (line : Line) : Option (Line × Line × Line) :=
@@ -96,9 +98,15 @@ theorem scanFence_none (line : Line) :
     split
     · split
       · rfl
-      · have h' : line = pre ++ [ch] ++ rest := by simp [h]
-        have := scanFence_some line pre rest [ch] h'
-        simpa [byteLen_append, byteLen, hb] using this
+      · have hs : sliceFrom line pre.length = .ok (ch :: rest) := by
+          rw [h, ← hb]; exact sliceFrom_append pre (ch :: rest)
+        rw [hs]
+        simp only []
+        split
+        · rfl
+        · have h' : line = pre ++ [ch] ++ rest := by simp [h]
+          have := scanFence_some line pre rest [ch] h'
+          simpa [byteLen_append, byteLen, hb] using this
     · rename_i hch
       have hch : ch = '`' := by simpa using hch
       subst hch
@@ -115,6 +123,199 @@ theorem extractCodeBlockStart_eq (line : Line) : extractCodeBlockStart line = .o
   · rfl
   · have := scanFence_none line line [] (by simp) (by simp [byteLen])
     simpa using this
+
+/-! ## the fence recogniser accepts exactly the fence lines of the property (`isFenceLine`) -/
+
+theorem scanSomePure_isSome (pre : Line) : ∀ (rem mid : Line), ∃ r, scanSomePure pre mid rem = some r := by
+  intro rem
+  induction rem with
+  | nil => intro mid; exact ⟨_, rfl⟩
+  | cons ch rest ih =>
+    intro mid
+    simp only [scanSomePure]
+    split
+    · exact ⟨_, rfl⟩
+    · exact ih _
+
+theorem scanSomePure_fst (pre : Line) : ∀ (rem mid : Line) (r : Line × Line × Line),
+    scanSomePure pre mid rem = some r → r.1 = pre := by
+  intro rem
+  induction rem with
+  | nil => intro mid r h; simp only [scanSomePure] at h; injection h with h; subst h; rfl
+  | cons ch rest ih =>
+    intro mid r h
+    simp only [scanSomePure] at h
+    split at h
+    · injection h with h; subst h; rfl
+    · exact ih _ r h
+
+theorem fence_cons_tick (rest : Line) :
+    fenceTicks ('`' :: rest) = '`' :: fenceTicks rest ∧ fenceInfo ('`' :: rest) = fenceInfo rest := by
+  simp [fenceTicks, fenceInfo]
+
+theorem fence_cons_other (ch : Char) (rest : Line) (h : ch ≠ '`') :
+    fenceTicks (ch :: rest) = [] ∧ fenceInfo (ch :: rest) = ch :: rest := by
+  simp [fenceTicks, fenceInfo, h]
+
+/-- `scanNonePure` in terms of the run of backticks and the rest behind it -/
+theorem scanNonePure_none_iff : ∀ (rem pre : Line),
+    scanNonePure pre rem = none ↔
+      (fenceInfo rem = [] ∨ pre.length + (fenceTicks rem).length < 3 ∨
+        ((fenceInfo rem).takeWhile (· ≠ '{')).contains '`' = true) := by
+  intro rem
+  induction rem with
+  | nil => intro pre; simp [scanNonePure, fenceInfo]
+  | cons ch rest ih =>
+    intro pre
+    simp only [scanNonePure]
+    by_cases hch : ch = '`'
+    · subst hch
+      simp only [ne_eq, not_true_eq_false, if_false]
+      rw [ih, (fence_cons_tick rest).1, (fence_cons_tick rest).2]
+      simp only [List.length_append, List.length_cons, List.length_nil]
+      constructor
+      · intro h
+        rcases h with h | h | h
+        · exact Or.inl h
+        · exact Or.inr (Or.inl (by omega))
+        · exact Or.inr (Or.inr h)
+      · intro h
+        rcases h with h | h | h
+        · exact Or.inl h
+        · exact Or.inr (Or.inl (by omega))
+        · exact Or.inr (Or.inr h)
+    · rw [(fence_cons_other ch rest hch).1, (fence_cons_other ch rest hch).2]
+      simp only [ne_eq, hch, not_false_eq_true, if_true, List.length_nil, Nat.add_zero]
+      constructor
+      · intro h
+        split at h
+        · rename_i h3; exact Or.inr (Or.inl h3)
+        · split at h
+          · rename_i h4; exact Or.inr (Or.inr h4)
+          · obtain ⟨r, hr⟩ := scanSomePure_isSome pre rest [ch]
+            rw [hr] at h; cases h
+      · intro h
+        rcases h with h | h | h
+        · cases h
+        · rw [if_pos h]
+        · split
+          · rfl
+          · simp only [h, if_true]
+
+theorem scanNonePure_fst : ∀ (rem pre : Line) (r : Line × Line × Line),
+    scanNonePure pre rem = some r → r.1 = pre ++ fenceTicks rem := by
+  intro rem
+  induction rem with
+  | nil => intro pre r h; simp [scanNonePure] at h
+  | cons ch rest ih =>
+    intro pre r h
+    simp only [scanNonePure] at h
+    by_cases hch : ch = '`'
+    · subst hch
+      simp only [ne_eq, not_true_eq_false, if_false] at h
+      rw [ih _ r h, (fence_cons_tick rest).1]
+      simp
+    · simp only [ne_eq, hch, not_false_eq_true, if_true] at h
+      split at h
+      · cases h
+      · split at h
+        · cases h
+        · rw [scanSomePure_fst pre rest [ch] r h, (fence_cons_other ch rest hch).1]
+          simp
+
+theorem byteLen_backticks (l : Line) (h : l.all (· = '`') = true) : byteLen l = l.length := by
+  induction l with
+  | nil => rfl
+  | cons c r ih =>
+    simp only [List.all_cons, Bool.and_eq_true, decide_eq_true_eq] at h
+    obtain ⟨hc, hr⟩ := h
+    subst hc
+    have h1 : ('`' : Char).utf8Size = 1 := rfl
+    simp only [byteLen, ih hr, h1, List.length_cons]
+    omega
+
+theorem takeWhile_all (l : Line) (h : l.all (· = '`') = true) : fenceTicks l = l ∧ fenceInfo l = [] := by
+  induction l with
+  | nil => exact ⟨rfl, rfl⟩
+  | cons c r ih =>
+    simp only [List.all_cons, Bool.and_eq_true, decide_eq_true_eq] at h
+    obtain ⟨hc, hr⟩ := h
+    subst hc
+    obtain ⟨h1, h2⟩ := ih hr
+    unfold fenceTicks fenceInfo at *
+    simp [h1, h2]
+
+theorem all_of_info_nil (l : Line) (h : fenceInfo l = []) : l.all (· = '`') = true := by
+  induction l with
+  | nil => rfl
+  | cons c r ih =>
+    unfold fenceInfo at h ih
+    by_cases hc : c = '`'
+    · subst hc
+      simp only [List.dropWhile_cons, decide_true, if_true] at h
+      simp [ih h]
+    · have hd : decide (c = '`') = false := by simpa using hc
+      simp [hd] at h
+
+/-- **The code's fence recogniser and the property's notion of a fence line agree**: a line is
+reported as the start of a code block iff it is three or more backticks followed by an info string
+without backtick. -/
+theorem fencePure_isSome_iff (l : Line) : (fencePure l).isSome = isFenceLine l := by
+  unfold fencePure
+  split
+  · rename_i hb
+    unfold isBareFence at hb
+    simp only [Bool.and_eq_true, decide_eq_true_eq] at hb
+    obtain ⟨h1, h2⟩ := takeWhile_all l hb.2
+    have h3 := byteLen_backticks l hb.2
+    have h4 : 3 ≤ l.length := by omega
+    unfold isFenceLine fenceLang
+    rw [h1, h2]
+    simp [h4]
+  · rename_i hb
+    cases hs : scanNonePure [] l with
+    | none =>
+      have := (scanNonePure_none_iff l []).mp hs
+      unfold isFenceLine fenceLang
+      rcases this with h | h | h
+      · have hall := all_of_info_nil l h
+        obtain ⟨h1, _⟩ := takeWhile_all l hall
+        have h3 := byteLen_backticks l hall
+        have h4 : ¬ 3 ≤ l.length := by
+          intro h4
+          apply hb
+          unfold isBareFence
+          simp [hall, h3, h4]
+        rw [h1]
+        simp [h4]
+      · simp only [List.length_nil, Nat.zero_add] at h
+        have : ¬ 3 ≤ (fenceTicks l).length := by omega
+        simp [this]
+      · rw [h]; simp
+    | some r =>
+      have hne : scanNonePure [] l ≠ none := by rw [hs]; simp
+      rw [Ne, scanNonePure_none_iff] at hne
+      unfold isFenceLine fenceLang
+      simp only [not_or, List.length_nil, Nat.zero_add, Nat.not_lt, Bool.not_eq_true] at hne
+      rw [hne.2.2]
+      simp [hne.2.1]
+
+/-- … and the fence it reports is the run of backticks at the start of the line -/
+theorem fencePure_fst (l : Line) (r : Line × Line × Line) (h : fencePure l = some r) : r.1 = fenceTicks l := by
+  unfold fencePure at h
+  split at h
+  · rename_i hb
+    unfold isBareFence at hb
+    simp only [Bool.and_eq_true, decide_eq_true_eq] at hb
+    injection h with h
+    subst h
+    exact (takeWhile_all l hb.2).1.symm
+  · simpa using scanNonePure_fst l [] r h
+
+theorem fence_iff_spec (l : Line) :
+    extractCodeBlockStart l = .ok none ↔ isFenceLine l = false := by
+  rw [extractCodeBlockStart_eq, ← fencePure_isSome_iff]
+  cases fencePure l <;> simp
 
 /-! ## the tokenizer never crashes and is the pure `runP` -/
 
